@@ -517,6 +517,30 @@ func (ce *CEnv) call(e *CExpr) Val {
 			cfail("typeis(iface, \"T\")")
 		}
 		return boolVal(Eq(v.Tag, IntLit(ce.x.P.typeTagByName(args[1].Str))))
+	case "dyn":
+		// dyn(ifaceValue, "*pkg.T"): the payload of an interface value seen as a pointer to T (meaningful where typeis holds)
+		v := ce.eval(args[0])
+		if v.K != VIface || args[1].Op != "str" || !strings.HasPrefix(args[1].Str, "*") {
+			cfail("dyn(iface, \"*pkg.T\")")
+		}
+		nm := strings.TrimPrefix(args[1].Str, "*")
+		k := strings.LastIndex(nm, ".")
+		if k < 0 {
+			cfail("dyn: type name must be package-qualified")
+		}
+		var obj types.Object
+		for path, sp := range ce.x.P.spkgs {
+			if strings.HasPrefix(path, modPath) && sp.Pkg.Name() == nm[:k] {
+				if o := sp.Pkg.Scope().Lookup(nm[k+1:]); o != nil {
+					obj = o
+				}
+			}
+		}
+		if obj == nil {
+			cfail("dyn: unknown type %s", nm)
+		}
+		pt := types.NewPointer(obj.Type())
+		return Val{K: VPtr, Typ: pt, Prefix: objPrefix(obj.Type()), Idx: []*Term{v.T}}
 	case "errcode":
 		return intVal(refOf(ce.eval(args[0])))
 	case "abs":
